@@ -260,6 +260,27 @@ theorem cmp_canonical_trans (a b c : Label)
   simp only [Res.ok.injEq] at h1 h2 ⊢
   exact lenLex_trans _ _ _ h1 h2
 
+/-- trichotomy, both orders: two serialisable labels are equal or strictly ordered one way — never incomparable. -/
+theorem cmp_trichotomy (a b : Label) (ha : ValidLabel a) (hb : ValidLabel b) :
+    Label.cmp a b = .ok .lt ∨ a = b ∨ Label.cmp b a = .ok .lt := by
+  have hs := cmp_swap a b ha hb
+  have he := cmp_eq_iff a b ha hb
+  rw [cmp_is_lex a b ha hb] at hs he ⊢
+  cases h : lexCmp (encLabel a) (encLabel b)
+  · left; rfl
+  · right; left; exact he.mp (by rw [h])
+  · right; right; have := hs .gt (by rw [h]); simpa [Ordering.swap] using this
+
+theorem cmp_canonical_trichotomy (a b : Label) (ha : ValidLabel a) (hb : ValidLabel b) :
+    Label.cmpCanonical a b = .ok .lt ∨ a = b ∨ Label.cmpCanonical b a = .ok .lt := by
+  have hs := cmp_canonical_swap a b
+  have he := cmp_canonical_eq_iff a b ha hb
+  rw [cmp_canonical_is_lenlex] at hs he ⊢
+  cases h : lenLex (encLabel a) (encLabel b)
+  · left; rfl
+  · right; left; exact he.mp (by rw [h])
+  · right; right; have := hs .gt (by rw [h]); simpa [Ordering.swap] using this
+
 theorem registered_cmp (R : Registry) (a b : RegLabel) (ha : ValidLabel (regEnc R a)) (hb : ValidLabel (regEnc R b)) :
     RegLabel.cmp R a b = .ok (lexCmp (encLabel (regEnc R a)) (encLabel (regEnc R b))) := by
   cases a <;> cases b <;> simp only [RegLabel.cmp, regEnc] at *
@@ -294,6 +315,8 @@ example : Label.cmp (.int 23) (.int 24) = .ok .lt ∧ Label.cmp (.int 255) (.int
 #print axioms cmp_canonical_eq_iff
 #print axioms cmp_canonical_swap
 #print axioms cmp_canonical_trans
+#print axioms cmp_trichotomy
+#print axioms cmp_canonical_trichotomy
 #print axioms registered_cmp
 #print axioms registered_private_cmp
 
